@@ -40,6 +40,8 @@ type State struct {
 	epoch string
 	defers []deferred
 	facts  map[string]bool
+	locals map[string]localCell // copy-on-write
+	next0  Term                 // allocation counter at function entry
 }
 
 func (st *State) clone(n *Node) *State {
@@ -57,6 +59,8 @@ func (st *State) clone(n *Node) *State {
 		}
 	}
 	c.learn(n.T)
+	c.locals = st.locals
+	c.next0 = st.next0
 	return c
 }
 
@@ -322,7 +326,69 @@ func (e *Engine) alloc(st *State, et types.Type, hint string) Term {
 		h := e.heapGet(st, name, arrOf(arrOf(c.Sort)))
 		e.heapSet(st, name, Store(h, r, zeroOfSort(arrOf(c.Sort))))
 	}
+	// a fresh object is local (unreachable from outside) until a reference to it escapes
+	nl := make(map[string]localCell, len(st.locals)+1)
+	for k, v := range st.locals {
+		nl[k] = v
+	}
+	nl[r.S] = localCell{ref: r, prefix: "A!" + heapTypeName(et) + "!"}
+	st.locals = nl
 	return r
+}
+
+type localCell struct {
+	ref    Term
+	prefix string
+}
+
+// escape marks every local object referenced by v as escaped (reachable by unknown code).
+func (st *State) escape(v Value) {
+	if len(st.locals) == 0 {
+		return
+	}
+	drop := func(ref Term) {
+		if _, ok := st.locals[ref.S]; ok {
+			nl := make(map[string]localCell, len(st.locals))
+			for k, v := range st.locals {
+				if k != ref.S {
+					nl[k] = v
+				}
+			}
+			st.locals = nl
+		}
+	}
+	switch x := v.(type) {
+	case VPtr:
+		drop(x.Ref)
+	case VSlice:
+		drop(x.Arr)
+		if strings.HasPrefix(x.Arr.S, "(ite ") {
+			// append results: either branch
+			for _, p := range splitTop(x.Arr.S[1 : len(x.Arr.S)-1])[2:] {
+				drop(Term{p, SInt})
+			}
+		}
+	case VFunc:
+		for _, b := range x.Bind {
+			st.escape(b)
+		}
+	case VStruct:
+		for _, f := range x.F {
+			st.escape(f)
+		}
+	case VIface:
+		if x.Dyn != nil {
+			st.escape(x.Dyn)
+		}
+	case VTuple:
+		for _, f := range x {
+			st.escape(f)
+		}
+	case Term:
+		if _, ok := st.locals[x.S]; ok {
+			drop(x)
+		}
+	}
 }
 
 // allocFacts: a ref-typed value read from the pre-existing heap or received as input is allocated.
